@@ -476,6 +476,7 @@ func (f *STFS) OpenFile(name string, flag int, perm os.FileMode) (afero.File, er
 
 		f.onHeader,
 	)
+	existed := err == nil
 	if err != nil {
 		if err == sql.ErrNoRows {
 			hdr, err = inventory.Stat(
@@ -488,7 +489,7 @@ func (f *STFS) OpenFile(name string, flag int, perm os.FileMode) (afero.File, er
 			)
 
 			createFile := func() error {
-				if !f.readOnly && flag&os.O_CREATE != 0 && flag&os.O_EXCL == 0 {
+				if !f.readOnly && flag&os.O_CREATE != 0 {
 					parent, err := inventory.Stat(
 						f.metadata,
 
@@ -595,6 +596,11 @@ func (f *STFS) OpenFile(name string, flag int, perm os.FileMode) (afero.File, er
 		} else {
 			return nil, err
 		}
+	}
+
+	// `O_EXCL` together with `O_CREATE` demands that this call creates the file
+	if existed && !f.readOnly && flag&os.O_CREATE != 0 && flag&os.O_EXCL != 0 {
+		return nil, os.ErrExist
 	}
 
 	// Prevent opening a directory as writable
